@@ -70,6 +70,53 @@ theorem accepted_reachable {n : Nat} {tr : List TEv} {st' : St}
 
 end Mutex
 
+namespace Barrier
+open ALock.Atomic.Mutex
+
+theorem accept_run {st st' : Mutex.St} {e : TEv} (h : accept st e = .ok st') :
+    ∃ l, st'.sys = run ords st.sys l := by
+  cases e with
+  | beg i c => simp only [accept, Except.ok.injEq] at h; subst h; exact ⟨[], rfl⟩
+  | atom i x =>
+    simp only [accept] at h
+    obtain ⟨stp, _, h2⟩ := bind_ok h
+    simp only [pure, Except.pure, Except.ok.injEq] at h2
+    subst h2
+    exact ⟨[stp], rfl⟩
+  | ret i r =>
+    simp only [accept] at h
+    obtain ⟨_, _, h2⟩ := bind_ok h
+    simp only [pure, Except.pure, Except.ok.injEq] at h2
+    subst h2
+    exact ⟨[], rfl⟩
+
+def acceptAll (st : Mutex.St) : List TEv → Except String Mutex.St
+  | [] => .ok st
+  | e :: es => match accept st e with
+    | .ok st' => acceptAll st' es
+    | .error m => .error m
+
+theorem accepted_reachable {n : Nat} {tr : List TEv} {st' : Mutex.St}
+    (h : acceptAll (Mutex.init n) tr = .ok st') : ∃ l, st'.sys = run ords {} l := by
+  have key : ∀ (tr : List TEv) (st st' : Mutex.St), acceptAll st tr = .ok st' →
+      ∃ l, st'.sys = run ords st.sys l := by
+    intro tr
+    induction tr with
+    | nil => intro st st' h; simp only [acceptAll, Except.ok.injEq] at h; subst h; exact ⟨[], rfl⟩
+    | cons e es ih =>
+      intro st st' h
+      simp only [acceptAll] at h
+      split at h
+      · rename_i st1 h1
+        obtain ⟨l1, e1⟩ := accept_run h1
+        obtain ⟨l2, e2⟩ := ih _ _ h
+        exact ⟨l1 ++ l2, by rw [e2, e1, Mutex.run_append]⟩
+      · cases h
+  obtain ⟨l, e⟩ := key tr _ _ h
+  exact ⟨List.replicate n .spawn ++ l, by rw [e, Mutex.init_run, Mutex.run_append]⟩
+
+end Barrier
+
 namespace Sem
 open ALock.Atomic.Sem
 
